@@ -41,13 +41,13 @@ structure Inv (S : Array Node) (st : FState) (i : Nat) : Prop where
   node : ∀ j, j < i → NodeInv ρ S st j
 
 /-- the state after one node -/
-def nextState (st : FState) (F' : Array Node) (d : Dict) (s : Nat) (p : Bool) : FState :=
-  { F := F', facs := st.facs.push d, sf := st.sf.push s, one := st.one, pendingZero := p }
+def nextState (st : FState) (F' : Array Node) (d : Dict) (s : Nat) : FState :=
+  { F := F', facs := st.facs.push d, sf := st.sf.push s, one := st.one }
 
 /-- the effect of one successful `stepNode` -/
 def StepPost (S : Array Node) (st : FState) (si : Nat) (st' : FState) : Prop :=
-  ∃ (F' : Array Node) (d : Dict) (s : Nat) (p : Bool),
-    st' = nextState st F' d s p ∧
+  ∃ (F' : Array Node) (d : Dict) (s : Nat),
+    st' = nextState st F' d s ∧
     Ext st.F F' ∧ Closed F' ∧ DictOK F' d ∧ d.keys.Nodup ∧ KeysIn (QReal ρ S) d ∧
     (d = [] → s < F'.size ∧ val ρ F' s = val ρ S si) ∧
     (d ≠ [] → val ρ S si = factSum ρ F' (val ρ S) d)
@@ -55,24 +55,24 @@ def StepPost (S : Array Node) (st : FState) (si : Nat) (st' : FState) : Prop :=
 theorem inv_of_post (S : Array Node) (st st' : FState) (si : Nat)
     (hinv : Inv ρ S st si) (hp : StepPost ρ S st si st') :
     Inv ρ S st' (si + 1) ∧ Ext st.F st'.F ∧ (∀ j, j < si → facAt st' j = facAt st j) := by
-  obtain ⟨F', d, s, p, rfl, hx, hc, hd, hnd, hq, hfree, hdep⟩ := hp
-  have hfac : ∀ j, j < si → facAt (nextState st F' d s p) j = facAt st j := by
+  obtain ⟨F', d, s, rfl, hx, hc, hd, hnd, hq, hfree, hdep⟩ := hp
+  have hfac : ∀ j, j < si → facAt (nextState st F' d s) j = facAt st j := by
     intro j hj
     unfold facAt nextState
     simp only
     rw [Array.getElem?_push]
     have : j ≠ st.facs.size := by rw [hinv.nfacs]; omega
     simp [this]
-  have hsf : ∀ j, j < si → sfAt (nextState st F' d s p) j = sfAt st j := by
+  have hsf : ∀ j, j < si → sfAt (nextState st F' d s) j = sfAt st j := by
     intro j hj
     unfold sfAt nextState
     simp only
     rw [Array.getElem?_push]
     have : j ≠ st.sf.size := by rw [hinv.nsf]; omega
     simp [this]
-  have hfac' : facAt (nextState st F' d s p) si = d := by
+  have hfac' : facAt (nextState st F' d s) si = d := by
     unfold facAt nextState; simp only; rw [Array.getElem?_push]; simp [hinv.nfacs]
-  have hsf' : sfAt (nextState st F' d s p) si = s := by
+  have hsf' : sfAt (nextState st F' d s) si = s := by
     unfold sfAt nextState; simp only; rw [Array.getElem?_push]; simp [hinv.nsf]
   refine ⟨⟨by simp [nextState, hinv.nfacs], by simp [nextState, hinv.nsf], hc,
     Nat.lt_of_lt_of_le hinv.one_lt hx.size_le,
